@@ -160,6 +160,19 @@ def run(ctx):
     ]
     for c in corner:
         cases.append((c, dict(kind="corner")))
+    # witnesses of the defects found so far: re-run on every run so that each is reported (or seen fixed) deterministically
+    cases.append(([{"type": "record", "name": "A", "fields": []}, {"type": "fixed", "name": "A", "size": 1}],
+                  dict(kind="duplicate-name", path=[1], name="A", across_top_level_union_members=True)))
+    cases.append(({"type": "record", "name": "R", "fields": [{"name": "f", "type": ["null", {"type": "array", "items": "int"}], "default": 5}]},
+                  dict(kind="default-wrong-type", path=["fields", 0], field_type=["null", {"type": "array", "items": "int"}], default=5)))
+    cases.append(({"type": "record", "name": "R", "fields": [{"name": "e", "type": {"type": "enum", "name": "E", "symbols": ["A"]}},
+                                                              {"name": "f", "type": "E", "default": 5}]},
+                  dict(kind="default-wrong-type", path=["fields", 1], field_type="E", default=5)))
+    cases.append(({"type": "record", "name": "R", "fields": [{"name": "f", "type": "int", "default": True}]},
+                  dict(kind="default-wrong-type", path=["fields", 0], field_type="int", default=True)))
+    cases.append(({"type": "record", "name": "R", "fields": [{"name": "f", "type": ["null", "double"], "default": "1.5"}]},
+                  dict(kind="default-wrong-type", path=["fields", 0], field_type=["null", "double"], default="1.5")))
+    cases.append(({"type": "record", "name": "R", "fields": [{"name": "f", "type": {"type": "double"}, "default": 1}]}, None))
 
     exprs = []
     for s, mut in cases:
